@@ -171,11 +171,11 @@ class SymDT:
     def __format__(self, spec):
         return "<symdt>"
 
-    def isoformat(self, *a):
-        return "<symdt>"
+    def isoformat(self, sep="T", timespec="auto"):
+        return SymTimeString(self, ("iso", sep, timespec))
 
     def strftime(self, fmt):
-        return "<symdt>"
+        return SymTimeString(self, ("strftime", fmt))
 
     # ---- order
     def _c(self, o, f):
@@ -301,6 +301,46 @@ class OutsideWindow(ArithmeticError):
     pass
 
 
+# Does this platform's strftime zero-pad %Y?  (glibc does not; probed, not assumed)
+PLATFORM_PADS_YEAR = _datetime(5, 1, 1).strftime("%Y") == "0005"
+ISO_FMT = "%Y-%m-%dT%H:%M:%S.%f"
+
+
+class SymTimeString(str):
+    """the text of a symbolic instant as produced by strftime / isoformat (kept abstract: the
+    instant plus how it was rendered); `strptime` of the proxy parses it back according to the
+    documented behaviour of CPython's _strptime (exactly four digits for %Y, '.%f' required)."""
+
+    def __new__(cls, dt, how):
+        o = str.__new__(cls, "<symbolic time string>")
+        o.dt, o.how = dt, how
+        return o
+
+
+def model_strptime(s, fmt):
+    if not isinstance(s, SymTimeString):
+        return _datetime.strptime(s, fmt)
+    dt, how = s.dt, s.how
+    if how[0] == "strftime":
+        if how[1] != fmt:
+            raise NotImplementedError("symbolic strptime with a different format than strftime")
+        if "%Y" in fmt and not PLATFORM_PADS_YEAR and bool(dt.year < 1000):
+            raise ValueError("time data '<year without padding>...' does not match format %r" % fmt)
+        return dt
+    if how[0] == "iso":
+        _, sep, timespec = how
+        if fmt != "%Y-%m-%d" + sep + "%H:%M:%S.%f":
+            raise NotImplementedError("symbolic strptime of an ISO string with format %r" % fmt)
+        if timespec == "microseconds":
+            return dt
+        if timespec == "auto":
+            if bool(dt.microsecond == 0):
+                raise ValueError("time data without fraction does not match format %r" % fmt)
+            return dt
+        raise ValueError("time data does not match format %r" % fmt)
+    raise NotImplementedError(how)
+
+
 def _is_const(x):
     return not isinstance(x, Sym)
 
@@ -353,6 +393,9 @@ class DatetimeProxy:
 
     def __instancecheck__(self, inst):
         return isinstance(inst, (_datetime, SymDT))
+
+    def strptime(self, s, fmt):
+        return model_strptime(s, fmt)
 
     def __getattr__(self, n):
         return getattr(_datetime, n)
